@@ -547,6 +547,64 @@ example : (fixResonance
     (fun r => (r.2, r.1.atoms.map (fun p => (p.2.charge, p.2.implH)), (r.1.bond? 1 2).map (·.order), (r.1.bond? 2 3).map (·.order))) =
     some ([1, 2, 3], [(0, some 2), (0, some 1), (0, some 1)], some 2, some 1) := by decide +kernel
 
+/-- **Every delocalisation path alternates** (the "documented pattern" of a shift: `A=A-A >> A-A=A`). Whatever the start atom, the
+    finish / constraint sets, the acceptance test and the fuel: if the search (`findPath` from `startStack`, exactly what both
+    loops of `fixResonance` call) hands out a path `p`, then step `i` of `p` rewrites an EXISTING bond of the molecule, of order `o`,
+    to `o + 1` when `i` is even (`o ≤ 2`) and to `o − 1` when `i` is odd (`2 ≤ o ≤ 4`): bond orders go up, down, up, … along
+    the path, never below 1 or above 3. -/
+theorem resonance_paths_alternate (m : Mol) (start : Nat) (finish constrains : List Nat) (oddOnly : Bool)
+    (accept : RPath → Option Bool) (fuel : Nat) (st0 : List (Nat × Nat × Nat × Nat)) (seen : List Nat) (p : RPath)
+    (h0 : startStack m start constrains = some st0)
+    (h : findPath m finish constrains oddOnly accept fuel st0 [] seen = some (some p)) :
+    ∀ i t, p[i]? = some t → StepOk m i t :=
+  search_alternates m start finish constrains oddOnly accept fuel st0 seen p h0 h
+
+/-- a path with something in it: on `[CH2-]C=[OH+]` the search from atom 1 to the cation 3 yields `[(1,2,→2), (2,3,→1)]` -/
+example : ∃ st0, startStack
+      ⟨[(1, { z := 6, charge := -1, implH := some 2 }), (2, { z := 6, implH := some 1 }), (3, { z := 8, charge := 1, implH := some 1 })],
+       [(1, [(2, { order := 1 })]), (2, [(1, { order := 1 }), (3, { order := 2 })]), (3, [(2, { order := 2 })])]⟩ 1 [1, 2, 3] = some st0 ∧
+    findPath
+      ⟨[(1, { z := 6, charge := -1, implH := some 2 }), (2, { z := 6, implH := some 1 }), (3, { z := 8, charge := 1, implH := some 1 })],
+       [(1, [(2, { order := 1 })]), (2, [(1, { order := 1 }), (3, { order := 2 })]), (3, [(2, { order := 2 })])]⟩
+      [3] [1, 2, 3] false (fun _ => some true) 100 st0 [] [1] = some (some [(1, 2, 2), (2, 3, 1)]) :=
+  ⟨_, rfl, by decide⟩
+
+/-! ## the `canonicalize` pipeline as a composition of its stages -/
+
+/-- **Heavy atoms through the whole pipeline.** `canonicalize` is `kekule → fix_resonance → rule tables → implicify_hydrogens →
+    thiele → standardize_charges`. The four modelled stages are the functions the driver runs (`fixResonance`,
+    `standardizeFrom`, `implicify`, `standardizeCharges`); the Kekulé / Thiele steps (C05's subject) enter only through what is
+    assumed of them: they keep the atoms (`skeleton`). Then the heavy-atom list of the result is that of the input — the
+    per-stage theorems (`fix_resonance_conserves`, `standardize_whole_keeps_atoms`, `implicify_keeps_heavy_atoms`,
+    `standardize_charges_keeps_composition`) compose, the `Nodup` side condition being carried along by the stages themselves. -/
+theorem canonicalize_pipeline_keeps_heavy_atoms
+    (m0 m1 m2 m3 m4 m5 m6 : Mol) (hnd : m0.ids.Nodup)
+    -- kekule (assumed: keeps the atoms)
+    (hkek : skeleton m1 = skeleton m0)
+    -- fix_resonance
+    (L1 : Labels) (ro eo hs : List Nat) (hres : fixResonance m1 L1 ro eo = some (m2, hs))
+    -- the rule tables of standardize()
+    (fixTaut : Bool) (fuel phase ri : Nat) (fs : Bool) (allFixed : List Nat) (ts ts' : TState) (hts : ts.mol = m2)
+    (hstd : reachedS (standardizeFrom fixTaut fuel phase ri fs allFixed ts) = some ts') (hts' : ts'.mol = m3)
+    -- implicify_hydrogens
+    (cnt : Nat) (fx : List Nat) (himp : implicify m3 = .ok (m4, cnt, fx))
+    -- thiele (assumed: keeps the atoms)
+    (hthi : skeleton m5 = skeleton m4)
+    -- standardize_charges
+    (L5 : Labels) (comps sssr : List (List Nat)) (orders : List (List (Nat × Nat))) (ch : List Nat)
+    (hchg : standardizeCharges m5 L5 comps sssr orders = some (.done m6 ch)) :
+    heavyAtoms m6 = heavyAtoms m0 := by
+  have hnd1 : m1.ids.Nodup := by rw [ids_of_skeleton hkek]; exact hnd
+  have k2 := fixResonance_keeps m1 L1 ro eo m2 hs hnd1 hres
+  have hnd2 : m2.ids.Nodup := by rw [ids_of_skeleton k2.1]; exact hnd1
+  obtain ⟨hid3, hs3⟩ := standardizeFrom_skeleton fixTaut fuel phase ri fs allFixed ts ts' (hts ▸ hnd2) hstd
+  rw [hts, hts'] at hs3 hid3
+  have hnd3 : m3.ids.Nodup := by rw [hid3]; exact hnd2
+  have h4 := implicify_heavy m3 m4 cnt fx himp hnd3
+  have h6 := (standardize_charges_keeps_composition m5 L5 comps sssr orders m6 ch hchg).2.1
+  rw [h6, heavyAtoms_eq_of_skeleton hthi, h4, heavyAtoms_eq_of_skeleton hs3, heavyAtoms_eq_of_skeleton k2.1,
+    heavyAtoms_eq_of_skeleton hkek]
+
 /-! ## explicit / implicit hydrogens -/
 
 /-- **`explicify_hydrogens` is a pure re-drawing**: same heavy atoms, same net charge, same total hydrogen count; afterwards
